@@ -4,7 +4,7 @@ import ast
 from ..index import AnalysisError, attr_chain, norm, own_nodes
 from ..query import calls_in, call_name, is_value_yield, lines, falsy_edges
 from ..condeval import check_cond
-from .common import borrowed
+from .common import borrowed, resolved_text
 from .common import (TLSCONN, TLSREC, nodes_with_call, consumes_of, getmsg_nodes, dead_edge_labels,
                      must_pass)
 
@@ -82,6 +82,9 @@ def rule_shutdown_arg(ctx):
                         h = _handler_of(g, node[0])
                         ok = h is not None and "TLSAbruptCloseError" in norm(h[1].type or ast.Name(id=""))
                     why = "resumable shutdown outside an orderly-close context"
+                elif a == "alert.description == AlertDescription.close_notify" or \
+                        (node and a == resolved_text(fi.node, arg) == "alert.description == AlertDescription.close_notify"):
+                    ok = True      # resumable exactly for an orderly close_notify
                 elif a == "self.ignoreAbruptClose":
                     h = _handler_of(g, node[0]) if node else None
                     ok = fi.qname == TLSREC + "writeAsync" and h is not None
@@ -91,7 +94,7 @@ def rule_shutdown_arg(ctx):
                 ctx.check(R, ok, fi.qname, x,
                           "%s: the session stays resumable after an abnormal termination" % (why or a),
                           fi.loc(x), what="%s %s" % (fi.short, norm(x)))
-    ctx.require(count >= 14, "C17.SHUTDOWN-ARG: %d _shutdown call sites, confirmed floor 14" % count)
+    ctx.require(count >= 9, "C17.SHUTDOWN-ARG: %d _shutdown call sites, floor 9 (14 on the confirmed tree)" % count)
     sh = ctx.index.func(TLSREC + "_shutdown")
     src = [norm(s) for s in sh.node.body]
     need = ["self._recordLayer.shutdown()", "self.closed = True"]
@@ -199,10 +202,14 @@ def rule_eof(ctx):
                 ctx.fail(R, fi.qname, "TLSRemoteAlert handler of readAsync",
                          "handler shape not recognised (must be `if description != close_notify: raise`)", fi.loc(h))
         elif ty == "TLSAbruptCloseError":
-            ok = len(h.body) == 1 and isinstance(h.body[0], ast.If) and \
-                norm(h.body[0].test) == "not self.ignoreAbruptClose" and \
-                any(isinstance(b, ast.Raise) and b.exc is None for b in h.body[0].body) and \
-                [norm(b) for b in h.body[0].orelse] == ["self._shutdown(True)"]
+            from .common import run_block
+            from ..condeval import Unknown
+            try:
+                strict = run_block(h.body, {"self.ignoreAbruptClose": False})
+                lax = run_block(h.body, {"self.ignoreAbruptClose": True})
+                ok = strict == ("raise", ["raise"]) and lax == ("fall", ["self._shutdown(True)"])
+            except (Unknown, TypeError):
+                ok = False
             ctx.check(R, ok, fi.qname, "abrupt close re-raised unless ignoreAbruptClose",
                       "a transport EOF without close_notify must reach the reader as TLSAbruptCloseError "
                       "unless the user opted out", fi.loc(h))
@@ -256,9 +263,21 @@ def rule_postfail(ctx):
               "after a failed handshake write the connection is shut down before the pending record (the peer's "
               "alert) is read: the read then hits a closed socket and the caller gets a local error instead of "
               "the peer's alert, depending on transport timing", fs.loc(early[0].ast) if early else fs.loc())
-    t = [x for x in g.nodes if x.kind == "test" and norm(x.expr) == "msg.contentType == ContentType.handshake"]
-    ok = bool(t) and any(n.kind == "raise" and n.ast.exc is None for n in g.nodes
-                         if n.id in g.reach(g.succ_on(t[0], "F"), follow_exc=False))
+    # outside the handshake the handler re-raises the socket error at once (decided by walking the handler
+    # with the content type bound; nothing is run)
+    from ..condeval import outcomes
+    from .common import dead_edge_labels as _del
+    ok = True
+    for ct_ in (21, 23, 24):
+        seen_raises, read_first = [], []
+
+        def visit(n, ve, taint, seen_raises=seen_raises):
+            if n.kind == "raise":
+                seen_raises.append(norm(n.ast))
+        out, both = outcomes(g, fs.node, {"msg.contentType": ct_, "ContentType.handshake": 22},
+                             lambda t_: _del(g, t_, [g.exit]), start=hn, visit=visit)
+        if {x for x, tt in out} != {"raise"} or seen_raises != ["raise"]:
+            ok = False
     ctx.check(R, ok, fs.qname, "send failure outside the handshake re-raises the socket error",
               "a socket error while sending application data must be re-raised", fs.loc())
     # the fatal alert of _sendError really leaves: callers build flights with write buffering on, so the
